@@ -14,11 +14,13 @@
 //! kind "wb" (C08)
 //!   case  = {"case": id, "kind":"wb", "sheets":[names], "cells":[{"s","r","c","toks","f"}],
 //!            "names":[{"on": 0 (workbook) | sheet index, "name", "tok", "addr"}],
-//!            "charts":[{"on": sheet index, "toks":[ref tokens], "addrs":[text]}],
+//!            "charts":[{"on": sheet index, "toks":[ref tokens], "addrs":[text], "kinds":[chart kind per series:
+//!                       line|pie|bar|area, listed in this order; optional, default all line]}],
 //!            "steps":[{"a":"Insert"|"Remove","s","ax","p","n"}]}
 //!   events: {"a":"Init", <case fields>, "outcome", "obs"} then one per step {"a",..,"outcome","obs"}
 //!   obs   = {"cells":[{"s","r","c","f"}], "names":[{"on","i","name","addr"}], "charts":[{"on","i","addrs":[..]}]}
-//!           read through Cell::get_formula, DefinedName::get_address, chart series Formula::get_address_str
+//!           read through Cell::get_formula, DefinedName::get_address, and the series references of EVERY chart
+//!           kind of every plot area (immutable getters, kind by kind)
 //! Sheet indices are 1-based.  The driver never judges; "toks"/"tok" are only echoed for the trace specification.
 use serde_json::{json, Value};
 use std::panic::{catch_unwind, AssertUnwindSafe};
@@ -116,16 +118,105 @@ fn build(case: &Value) -> Spreadsheet {
     }
     for ch in case["charts"].as_array().unwrap() {
         let ws = book.get_sheet_mut(&(u(ch, "on") as usize - 1)).unwrap();
-        let mut from_marker = MarkerType::default();
-        let mut to_marker = MarkerType::default();
-        from_marker.set_coordinate("C1");
-        to_marker.set_coordinate("D11");
-        let series: Vec<&str> = ch["addrs"].as_array().unwrap().iter().map(|x| x.as_str().unwrap()).collect();
-        let mut chart = Chart::default();
-        chart.new_chart(ChartType::LineChart, from_marker, to_marker, series);
-        ws.add_chart(chart);
+        let addrs: Vec<&str> = ch["addrs"].as_array().unwrap().iter().map(|x| x.as_str().unwrap()).collect();
+        // "kinds": chart kind of every series (default: all "line"); consecutive series of one kind form one
+        // chart kind of the plot area, several kinds make a combination chart
+        let kinds: Vec<String> = match ch.get("kinds").and_then(|k| k.as_array()) {
+            Some(k) => k.iter().map(|x| x.as_str().unwrap().to_string()).collect(),
+            None => addrs.iter().map(|_| "line".to_string()).collect(),
+        };
+        assert_eq!(kinds.len(), addrs.len(), "kinds / addrs");
+        let mut groups: Vec<(String, Vec<&str>)> = vec![];
+        for (k, a) in kinds.iter().zip(addrs.iter()) {
+            match groups.last_mut() {
+                Some((gk, ga)) if gk == k => ga.push(*a),
+                _ => groups.push((k.clone(), vec![*a])),
+            }
+        }
+        let mut chart: Option<Chart> = None;
+        for (k, series) in groups {
+            let mut from_marker = MarkerType::default();
+            let mut to_marker = MarkerType::default();
+            from_marker.set_coordinate("C1");
+            to_marker.set_coordinate("D11");
+            let ty = match k.as_str() {
+                "line" => ChartType::LineChart,
+                "pie" => ChartType::PieChart,
+                "bar" => ChartType::BarChart,
+                "area" => ChartType::AreaChart,
+                other => panic!("unknown chart kind {}", other),
+            };
+            let mut one = Chart::default();
+            one.new_chart(ty, from_marker, to_marker, series);
+            match chart.as_mut() {
+                None => chart = Some(one),
+                Some(c) => {
+                    // a further kind in the same plot area (combination chart), built through the public API
+                    let donor = one.get_chart_space().get_chart().get_plot_area();
+                    let pa = c.get_chart_space_mut().get_chart_mut().get_plot_area_mut();
+                    match k.as_str() {
+                        "line" => { pa.set_line_chart(donor.get_line_chart().unwrap().clone()); }
+                        "pie" => { pa.set_pie_chart(donor.get_pie_chart().unwrap().clone()); }
+                        "bar" => { pa.set_bar_chart(donor.get_bar_chart().unwrap().clone()); }
+                        _ => { pa.set_area_chart(donor.get_area_chart().unwrap().clone()); }
+                    }
+                }
+            }
+        }
+        if let Some(c) = chart {
+            ws.add_chart(c);
+        }
     }
     book
+}
+
+/// The reference of every series of every chart kind of the plot area, read kind by kind through the immutable
+/// getters (not through PlotArea::get_formula_mut, which is what the library itself uses to shift them), in the
+/// library's fixed kind order; per series: category, values, x, y, bubble size.
+fn series_addresses(ch: &Chart) -> Vec<String> {
+    let pa = ch.get_chart_space().get_chart().get_plot_area();
+    let mut lists = vec![];
+    macro_rules! kind {
+        ($getter:ident) => {
+            if let Some(v) = pa.$getter() {
+                lists.push(v.get_area_chart_series_list());
+            }
+        };
+    }
+    kind!(get_line_chart);
+    kind!(get_line_3d_chart);
+    kind!(get_pie_chart);
+    kind!(get_pie_3d_chart);
+    kind!(get_doughnut_chart);
+    kind!(get_scatter_chart);
+    kind!(get_bar_chart);
+    kind!(get_bar_3d_chart);
+    kind!(get_radar_chart);
+    kind!(get_bubble_chart);
+    kind!(get_area_chart);
+    kind!(get_area_3d_chart);
+    kind!(get_of_pie_chart);
+    let mut out = vec![];
+    for l in lists {
+        for ser in l.get_area_chart_series() {
+            if let Some(f) = ser.get_category_axis_data().and_then(|c| c.get_string_reference()) {
+                out.push(f.get_formula().get_address_str());
+            }
+            if let Some(v) = ser.get_values() {
+                out.push(v.get_number_reference().get_formula().get_address_str());
+            }
+            if let Some(v) = ser.get_x_values() {
+                out.push(v.get_number_reference().get_formula().get_address_str());
+            }
+            if let Some(v) = ser.get_y_values() {
+                out.push(v.get_number_reference().get_formula().get_address_str());
+            }
+            if let Some(v) = ser.get_bubble_size() {
+                out.push(v.get_number_reference().get_formula().get_address_str());
+            }
+        }
+    }
+    out
 }
 
 fn project(book: &mut Spreadsheet) -> Value {
@@ -148,9 +239,8 @@ fn project(book: &mut Spreadsheet) -> Value {
         for (i, dn) in ws.get_defined_names().iter().enumerate() {
             names.push(json!({"on": si + 1, "i": i + 1, "name": dn.get_name(), "addr": dn.get_address()}));
         }
-        for (i, ch) in ws.get_chart_collection_mut().iter_mut().enumerate() {
-            let addrs: Vec<String> = ch.get_plot_area_mut().get_formula_mut().iter().map(|f| f.get_address_str()).collect();
-            charts.push(json!({"on": si + 1, "i": i + 1, "addrs": addrs}));
+        for (i, ch) in ws.get_chart_collection().iter().enumerate() {
+            charts.push(json!({"on": si + 1, "i": i + 1, "addrs": series_addresses(ch)}));
         }
     }
     json!({"cells": cells, "names": names, "charts": charts})
